@@ -337,6 +337,31 @@ func mayBeNilPointer(v ssa.Value, depth int, seen map[ssa.Value]bool) bool {
 	return false
 }
 
+// testedNonNil: block at lies behind a test `v != nil` of this very value (if errReply != nil { return errReply }).
+func testedNonNil(v ssa.Value, at *ssa.BasicBlock) bool {
+	for d := at; d != nil && d.Idom() != nil; d = d.Idom() {
+		id := d.Idom()
+		if len(d.Preds) != 1 || d.Preds[0] != id {
+			continue
+		}
+		cond, neg, ok := branchCond(id, d)
+		if !ok {
+			continue
+		}
+		val := !neg
+		bo, ok := cond.(*ssa.BinOp)
+		if !ok || (bo.Op != token.EQL && bo.Op != token.NEQ) {
+			continue
+		}
+		if (bo.X == v && isNilConst(bo.Y)) || (bo.Y == v && isNilConst(bo.X)) {
+			if (bo.Op == token.NEQ) == val {
+				return true
+			}
+		}
+	}
+	return false
+}
+
 // siblingGuards: the truth values of boolean results of `call` that every use of result `ex` of the same call lies behind
 // (the intersection over the uses of ex of the tests that dominate them).
 func siblingGuards(ex *ssa.Extract, call *ssa.Call) map[int]bool {
@@ -412,7 +437,7 @@ var rR31 = RuleRef{Name: "R31", Doc: "null is written, never computed: (a) a poi
 						continue
 					}
 					ordC++
-					bad := mayBeNilPointer(x.X, 0, map[ssa.Value]bool{})
+					bad := mayBeNilPointer(x.X, 0, map[ssa.Value]bool{}) && !testedNonNil(x.X, x.Block())
 					c.Add("R31", fnName(fn), fmt.Sprintf("reply conversion #%d of a %s is never a typed nil", ordC, x.X.Type().String()), x.Pos(), !bad, "the operand can be the nil pointer (a nil constant reaches it through a phi or a helper's return)")
 				case *ssa.Call:
 					var payload ssa.Value
@@ -1095,6 +1120,7 @@ func counterDelta(in ssa.Instruction) (*counterPair, int64, bool) {
 
 // R20m: the converse of R20n -- every entry that enters or leaves a mirrored table is counted.
 var rR20m = RuleRef{Name: "R20m", Doc: "no uncounted entry: every insertion into a table whose size is mirrored by a counter (the shard maps / ConcurrentMap.count, Chan.conns / Chan.numSubs) that is not an overwrite of an entry a successful lookup just found goes with a +1 of the counter in the region its guard dominates, and every delete of an entry goes with a -1. R20n ties each counter update to a table event; this rule ties each table event to a counter update, so a rewrite that drops the atomic.AddInt64 from one insert path (Len() then runs behind, later negative, and make(.., 0, Len()) panics) is a missing obligation, not a silent pass", Run: func(c *C) {
+	c.ensureCounterPairs()
 	n := 0
 	for _, fn := range c.P.allFuncs("memdb") {
 		if fn.Blocks == nil {
@@ -1146,6 +1172,7 @@ var rR20m = RuleRef{Name: "R20m", Doc: "no uncounted entry: every insertion into
 						}
 						cond, neg = u.X, !neg
 					}
+					cond, neg = stripBoolCompare(cond, neg)
 					mc, kc, _, ok := commaOkLookup(cond)
 					if !ok || mc != canon(tbl) || kc != canon(key) {
 						continue
